@@ -62,13 +62,8 @@ def check_case(doc, obs, tag='random'):
                        'at_section': expected[len(got)]['section']
                        if len(got) < len(expected) else None})
         return
-    d = common.diff_records(expected, got)
-    if d is not None and d[0] == 'option_value_differs:length':
-        # tolerate a legal change of JSON escape / number spelling: the
-        # declared length must then still frame the section exactly.
-        if _json_spelling_only(data, layout, d[1]['index']):
-            obs.count('tolerance:json_spelling_length')
-            d = common.diff_records(expected, got, ignore=('length', 'line'))
+    d = common.diff_records_tolerant(expected, got, data, oracle_bytes,
+                                     layout)
     if d is not None:
         obs.violation('roundtrip:%s' % d[0], doc, d[1])
     common.check_consumption(rstream, obs)
